@@ -122,6 +122,14 @@ class TStrList(Ty):
         return smt.StrSeq
 
 
+class TMatch(Ty):
+    """result of re.match: python-side (pattern, subject term); truthiness and groups are uninterpreted
+    functions of the subject named after the pattern (lexing model)"""
+
+    def sort(self):
+        raise TypeError("match objects are not storable")
+
+
 class TFunc(Ty):
     """closure / lambda / bound generator: python-side only"""
 
